@@ -39,11 +39,12 @@ package utils
 
 // Effective price = min(tip cap + base fee, fee cap) — the same number go-ethereum's AsMessage computes and the
 // refund uses; for legacy / access-list txs tip cap == fee cap == gas price, so it is the gas price.
+// The base fee is only looked at for dynamic-fee transactions (rpc/backend passes a nil one for the other types).
 //@ func EthTxEffectiveGasPrice(tx *ethtypes.Transaction, baseFee sdkmath.Int) *big.Int
 //@   deterministic[C01.no_node_local_source]
-//@   requires tx != nil && !inil(baseFee) && iv(baseFee) >= 0
+//@   requires tx != nil && (txType(tx) == 2 ==> (!inil(baseFee) && iv(baseFee) >= 0))
 //@   modifies nothing
-//@   ensures[C05.eff_price,C04.eff_price,C09.eff_price] result != nil && bigval[result] == min(txTipCap(tx) + iv(baseFee), txFeeCap(tx))
+//@   ensures[C05.eff_price,C04.eff_price,C09.eff_price] result != nil && ((!inil(baseFee) && iv(baseFee) >= 0) ==> bigval[result] == min(txTipCap(tx) + iv(baseFee), txFeeCap(tx)))
 //@   panics never
 
 //@ func EthTxEffectiveFee(tx *ethtypes.Transaction, baseFee sdkmath.Int) *big.Int
